@@ -62,11 +62,19 @@ Definition root_attrs (root attribute : dict) : dict :=
 (* Survey.get_nsmap without entities: prefix=uri tokens separated by whitespace *)
 Definition strip_quotes (v : str) : str := filter (fun c => negb (ceq c 34%N || ceq c 39%N)) v.
 Definition has_key (k : str) (d : dict) : bool := is_some (dget k d).
-Definition ns_decls (ns : str) : dict :=
-  fold_left (fun acc tok => match split_on 61%N tok with
-                            | [k; v] => if (match k with [] => false | _ => true end) && negb (has_key (s_xmlns_colon ++ k) NSMAP)
-                                        then dset (s_xmlns_colon ++ k) (strip_quotes v) acc else acc
-                            | _ => acc end) (py_split_ws ns) [].
+(* one entry: str.partition on the first "=" (the URI may hold further ones); no "=" or an empty prefix: not an entry *)
+Definition ns_entry (tok : str) : option (str * str) :=
+  let (k, r) := span (fun c => negb (ceq c 61%N)) tok in
+  match r with
+  | _ :: v => match k with [] => None | _ => Some (k, v) end
+  | [] => None
+  end.
+Definition ns_step (acc : dict) (tok : str) : dict :=
+  match ns_entry tok with
+  | Some (k, v) => if negb (has_key (s_xmlns_colon ++ k) NSMAP) then dset (s_xmlns_colon ++ k) (strip_quotes v) acc else acc
+  | None => acc
+  end.
+Definition ns_decls (ns : str) : dict := fold_left ns_step (py_split_ws ns) [].
 Definition nsmap_of (root : dict) : dict :=
   match field root s_namespaces with Some ns => NSMAP ++ ns_decls ns | None => NSMAP end.
 
